@@ -5,7 +5,7 @@
    representable ranges.  Proved: the forward round trip with the reader left on the first bit of slice
    data, for every context of accepted parameter sets; totality; the accepted-input half. *)
 From H264 Require Import Base.Prelude Base.Bits Model.BitReader Model.Parser Model.Nal Model.Sps Model.Context Model.Pps Model.Slice
-     Spec.SyntaxSps Spec.SyntaxSlice Proofs.Wp Proofs.SpsInv Proofs.PpsInv Proofs.SliceInv Proofs.C14_proofs Proofs.SliceRoundtrip.
+     Spec.SyntaxSps Spec.SyntaxSlice Proofs.Wp Proofs.SpsInv Proofs.PpsInv Proofs.SliceInv Proofs.C14_proofs Proofs.SliceRoundtrip Proofs.SliceConverse.
 Local Open Scope N_scope.
 
 (* Every conforming slice header (B slices with an explicit weight table excepted: wf_slice demands
@@ -13,9 +13,9 @@ Local Open Scope N_scope.
    exactly the encoded structure and the ids of the activated sets, and the reader is left on `rest`.
    Slice data must exist (a 1 bit after its first bit - the rbsp stop bit at the latest): the library
    refuses a header with nothing after it. *)
-Theorem C06_roundtrip : forall c hdr pp sp h ab rest tl,
+Theorem C06_roundtrip : forall c hdr pp sp h ab em rest tl,
   ctx_ok c -> wf_slice c hdr pp sp h ab -> any_one (List.tl rest) = true ->
-  slice_header_read c hdr (mk_src (enc_slice_header hdr pp sp h ab ++ rest) tl)
+  slice_header_read c hdr (mk_src (enc_slice_header hdr pp sp h ab em ++ rest) tl)
   = OK ((h, pps_seq_parameter_set_id pp, pic_parameter_set_id pp), mk_src rest tl).
 Proof. exact slice_header_roundtrip. Qed.
 Print Assumptions C06_roundtrip.
@@ -35,6 +35,22 @@ Proof.
   destruct (slice_header_read c hdr s) as [[[[h sid] pid] s']| | |]; exact H.
 Qed.
 Print Assumptions C06_accepted.
+
+(* converse: every accepted header is the encoding of the returned structure relative to the PPS / SPS the returned
+   ids name in the context (for some deblocking offsets and some coding of empty modification lists - what the
+   structure does not keep), followed by the slice data the reader stopped on.  ctx_keyed: every PPS is stored
+   under its own id, an invariant of Context::put_pic_param_set (C06_keyed) *)
+Theorem C06_converse : forall c hdr s h sid pid s', ctx_ok c -> ctx_keyed c ->
+  slice_header_read c hdr s = OK ((h, sid, pid), s') ->
+  exists pp sp ab em, pps_by_id c pid = Some pp /\ sps_by_id c sid = Some sp /\ pps_seq_parameter_set_id pp = sid /\
+    bits s = enc_slice_header hdr pp sp h ab em ++ bits s' /\ tail s' = tail s.
+Proof. exact slice_header_converse. Qed.
+Print Assumptions C06_converse.
+
+Theorem C06_keyed : ctx_keyed ctx_empty /\
+  (forall c sp, ctx_keyed c -> ctx_keyed (put_seq_param_set c sp)) /\ (forall c p, ctx_keyed c -> ctx_keyed (put_pic_param_set c p)).
+Proof. split; [exact ctx_keyed_empty|split; [exact ctx_keyed_put_sps|exact ctx_keyed_put_pps]]. Qed.
+Print Assumptions C06_keyed.
 
 (* non-vacuity: contexts satisfying ctx_ok exist *)
 Example C06_ex_ctx : ctx_ok ctx_empty.
@@ -59,7 +75,7 @@ Example C06_ex :
   let hdr := 65 in
   let rest := [true; false; true; true; false; false] in
   wf_slice c hdr pp sp h (3, -2)%Z /\
-  slice_header_read c hdr (mk_src (enc_slice_header hdr pp sp h (3, -2)%Z ++ rest) TEof) = OK ((h, 0, 4), mk_src rest TEof).
+  slice_header_read c hdr (mk_src (enc_slice_header hdr pp sp h (3, -2)%Z (true, false) ++ rest) TEof) = OK ((h, 0, 4), mk_src rest TEof).
 Proof.
   cbv zeta. split; [|vm_compute; reflexivity].
   unfold wf_slice. cbv zeta.
